@@ -3,7 +3,8 @@ EXTENDS Collection, Json
 CONSTANT Depth
 VARIABLE hist
 MCCmds == [c1 |-> [name |-> "a", aliases |-> <<"x">>], c2 |-> [name |-> "b", aliases |-> <<"x", "y">>],
-           c3 |-> [name |-> "a", aliases |-> <<"y">>], c4 |-> [name |-> "c", aliases |-> <<>>]]
+           c3 |-> [name |-> "a", aliases |-> <<"y">>], c4 |-> [name |-> "c", aliases |-> <<>>],
+           c5 |-> [name |-> "x", aliases |-> <<"b">>]]     \* named like an alias of c1 / c2, with an alias that is the name of c2
 MCTokens == {"a", "b", "c", "x", "y", "z"}
 HInit == Init /\ hist = <<>>
 HNext == Len(hist) < Depth /\ Next /\ hist' = Append(hist, last')
